@@ -47,8 +47,8 @@ func fmtMetric(m dag.Metric) string { return fmt.Sprintf("%d:%d", uint32(m.Num),
 
 // ---------------------------------------------------------------------------------------------
 
-// semHung: an Acquire with a timeout did not return within 3 s (a waiter that nothing wakes up)
-var semHung = false
+// semHung counts the Acquire calls that did not return (a waiter that nothing wakes up)
+var semHung = 0
 
 type semRunner struct {
 	s     *datasemaphore.DataSemaphore
@@ -84,8 +84,11 @@ func (r *semRunner) Step(line string) string {
 	case "try":
 		return r.fin("r=" + B2s(r.s.TryAcquire(metric(f[1], f[2]))))
 	case "acq":
-		if semHung && f[3] != "0" {
-			return "not-run (an earlier Acquire never returned)"
+		// patience: 3 s, as long as nothing ever hung in this run (always, on a correct tree); once three
+		// calls have hung for 3 s, later ones are given 50 ms so that a broken tree is not explored at 3 s a call
+		patience := 3 * time.Second
+		if semHung >= 3 {
+			patience = 50 * time.Millisecond
 		}
 		done := make(chan bool, 1)
 		s := r.s
@@ -93,9 +96,9 @@ func (r *semRunner) Step(line string) string {
 		select {
 		case res := <-done:
 			return r.fin("r=" + B2s(res))
-		case <-time.After(3 * time.Second):
-			semHung = true
-			return "hung (Acquire with a timeout of " + f[3] + " ms did not return within 3 s)"
+		case <-time.After(patience):
+			semHung++
+			return "hung (Acquire with a timeout of " + f[3] + " ms did not return)"
 		}
 	case "rel":
 		r.s.Release(metric(f[1], f[2]))
@@ -366,7 +369,8 @@ func (r *timedRunner) exec(line string) (out, sig string, again bool) {
 		return "bad-op", "bad-op", false
 	}
 	if !r.settle() {
-		return "stuck (goroutines neither returned nor parked after 2 s)", "stuck", true
+		// goroutines neither returned nor parked after 2 s: the machine, not the semaphore
+		return "noisy", "stuck", true
 	}
 	now := time.Now()
 	for _, w := range mustStay {
